@@ -101,7 +101,8 @@ def build_hank(
                 # Section 3.2 and 5.1 of DoMe13
                 Yp_k = Yf[:, (k * Nb) : ((k + 1) * Nb)]
                 Ym_k = Yp[:, (k * Nb) : ((k + 1) * Nb)]
-                Hcov_k = np.dot(Yp_k, Ym_k.T) / Nb
+                # (Yf and Yp carry a factor 1/sqrt(N) each: N/Nb puts the block estimate on the scale of Hank)
+                Hcov_k = np.dot(Yp_k, Ym_k.T) * N / Nb
 
                 Hcov += Hcov_k / nb
                 Hcov_vec_k = Hcov_k.reshape(-1, 1)
